@@ -67,6 +67,26 @@ def symbolic_int_group(world, ev):
     return r[0].state, r[0].value, {"p": p, "q": q, "g": g}
 
 
+def int_element_value(st0, g, s, o):
+    """The residue held by integer-group element o (in state s) when o has exactly the field layout of the
+    group's Base element (the group where Base holds the group, one value where Base holds g); else None -
+    e.g. when the constructor was called with its arguments exchanged."""
+    base = st0.heap[g.oid].get("Base")
+    if not isinstance(o, Obj) or not isinstance(base, Obj) or o.cls is not base.cls:
+        return None
+    tmpl, mine = st0.heap[base.oid], s.heap[o.oid]
+    if set(tmpl) != set(mine):
+        return None
+    vals = []
+    for k, tv in tmpl.items():
+        if tv == g:
+            if mine[k] != g:
+                return None
+        else:
+            vals.append(mine[k])
+    return vals[0] if len(vals) == 1 else None
+
+
 def unproj(t):
     """TupleV(proj(c,0..n-1)) -> c ; else None."""
     if isinstance(t, TupleV) and t.items and all(is_app(i, "proj") for i in t.items):
